@@ -431,6 +431,8 @@ func c11directed(c *Ctx, coll [][]string) {
 		}
 	}
 	// pre-epoch stamps one tick apart and more (each must open its own window)
+	// (the first one is the Coq witness Proofs.orig_witness_ops of C11_sequential_orig_refuted)
+	c11emitSeq(c, c11cfg{1, 0, sec}, []c11op{lg(0, 0, "x", -10*sec), lg(0, 0, "x", -5*sec)}, "preepoch")
 	c11emitSeq(c, c11cfg{1, 0, sec}, []c11op{lg(0, 0, "x", -10*sec), lg(0, 0, "x", -5*sec), lg(0, 0, "x", -5*sec+1), lg(0, 0, "x", -1)}, "preepoch")
 	c11emitSeq(c, c11cfg{2, 2, sec}, rep(12, func(i int) c11op { return lg(0, 1, "neg", -100*sec+int64(i)*sec/2) }), "preepoch")
 	c11emitSeq(c, c11cfg{1, 0, 10}, []c11op{lg(0, 0, "x", math.MinInt64), lg(0, 0, "x", math.MinInt64), lg(0, 0, "x", math.MinInt64+9), lg(0, 0, "x", math.MinInt64+10)}, "preepoch")
